@@ -1,4 +1,5 @@
 import ShmVerif.Proof.Mux
+import ShmVerif.Proof.MuxCons
 import ShmVerif.Props.C08
 /-!
   C09 — all shared memory comes back once streams are finished.
@@ -8,10 +9,12 @@ import ShmVerif.Props.C08
   a local Close releases everything buffered on the stream; data arriving for a client stream that no longer exists, or for
   a stream that is already closed, is released on arrival.  At buffer level (`LinkedBuffer`): ReleasePreviousRead empties the
   parked list (C08), `recycle` (used by Close) returns parked and listed slices alike (repaired code).
-  NOT yet proved: the global conservation invariant (every message is, at all times, in exactly one of: a queue, the
-  connection, one stream's buffer, released), nor its slot-level refinement; both are covered on the real code by the leak
-  monitor of the harness (every stream closed on both ends, nothing in flight ⇒ every size class offers its full
-  capacity and AllInUsedShareMemoryInBytes = 0).
+  Global conservation at message level (`c09_conservation`): for every operation sequence, every message ever flushed is,
+  at all times, in exactly one of: a send queue, a control connection, one stream's buffer, or released — never lost,
+  never duplicated; hence at quiescence everything is released (`c09_quiescent_all_released`).
+  NOT yet proved: the slot-level refinement (that "released" means every slot of the message's chain went back to its
+  free list exactly once — C02 at allocator level, the leak monitor of the harness on the real code: every stream
+  closed on both ends, nothing in flight ⇒ every size class offers its full capacity, AllInUsedShareMemoryInBytes = 0).
 -/
 namespace Props.C09
 open Mux List
@@ -57,5 +60,40 @@ theorem c09_release_empties_parked (m : LB.Mem) (l : LB.LBuf) : (l.release m).2.
 
 theorem c09_recycle_empties_buffer (m : LB.Mem) (l : LB.LBuf) : (l.recycle m).2.pinned = [] ∧ (l.recycle m).2.sl = [] := by
   unfold LB.LBuf.recycle; exact ⟨rfl, rfl⟩
+
+/-! ### global conservation (message level) -/
+
+def Reachable (s : Sys) : Prop := ∃ ops, s = run {} ops
+
+/-- every message ever flushed (tokens `0 … fresh-1`) is in exactly one place, every other token nowhere -/
+theorem c09_conservation {s : Sys} (hr : Reachable s) (t : Nat) : occ s t = if t < s.fresh then 1 else 0 := by
+  obtain ⟨ops, rfl⟩ := hr
+  exact (cinv_run ops _ cinv_init).cons t
+
+/-- nothing is duplicated: no message is released twice, queued twice, or both buffered and released -/
+theorem c09_no_duplication {s : Sys} (hr : Reachable s) (t : Nat) :
+    s.retired.count t ≤ 1 ∧ (bufAll (s.me .a)).count t + (bufAll (s.me .b)).count t + s.retired.count t ≤ 1 := by
+  have := c09_conservation hr t
+  unfold occ at this
+  split at this <;> omega
+
+/-- quiescence: with both queues and both connections empty and no stream buffering anything, every message ever
+    flushed has been released exactly once -/
+theorem c09_quiescent_all_released {s : Sys} (hr : Reachable s)
+    (hq : (s.ch .a).q = [] ∧ (s.ch .b).q = []) (hk : (s.ch .a).k = [] ∧ (s.ch .b).k = [])
+    (hb : bufAll (s.me .a) = [] ∧ bufAll (s.me .b) = []) (t : Nat) (ht : t < s.fresh) : s.retired.count t = 1 := by
+  have := c09_conservation hr t
+  simp [occ, hq.1, hq.2, hk.1, hk.2, hb.1, hb.2, qTokens, kTokens, ht] at this
+  exact this
+
+/-- stream ids are unique per end, and a stream that left the table buffers nothing (what makes `find` / `upd` exact) -/
+theorem c09_ids_unique {s : Sys} (hr : Reachable s) (x : Side) : Uniq (s.me x) ∧ Clean (s.me x) := by
+  obtain ⟨ops, rfl⟩ := hr
+  exact ⟨(cinv_run ops _ cinv_init).uniq x, (cinv_run ops _ cinv_init).clean x⟩
+
+-- non-vacuity: two messages flushed, one delivered and consumed, one still queued
+example :
+    let s := run {} [.open_ .a, .flush .a 2 false, .deliver .b, .consume .b 2, .flush .a 2 false]
+    s.fresh = 2 ∧ s.retired = [0] ∧ qTokens (s.ch .a).q = [1] ∧ occ s 0 = 1 ∧ occ s 1 = 1 ∧ occ s 2 = 0 := by decide
 
 end Props.C09
